@@ -28,6 +28,10 @@ struct Plan {
     /// allocation allowance per wire byte (4 by default; a header map the caller allowed to grow costs
     /// ~100-150 bytes per received field of >= 6 wire bytes, doubled by vector growth)
     alloc_factor: usize,
+    /// follow redirects (the redirect target is the same hostile peer, or nowhere)
+    follow: bool,
+    /// 0 = read loop; 1 = text(); 2 = json(); 3 = text_reader() read to the end; 4 = bytes()
+    helper: u8,
     method: &'static str,
     rereads: usize,
     read_size: usize,
@@ -73,7 +77,7 @@ fn gen(g: &mut G, thorough: bool) -> Plan {
     let mut alloc_factor = 4usize;
     let mut desc = String::new();
     let mut read_cap = 4 << 20;
-    let kindsel = g.below(12);
+    let kindsel = g.below(13);
     let (kind, wire): (&'static str, Vec<u8>) = match kindsel {
         0 | 1 => {
             // (a) short strings over the small alphabet as the whole response
@@ -145,6 +149,29 @@ fn gen(g: &mut G, thorough: bool) -> Plan {
             }
             desc = format!("mutations {:?} of a {:?} response ({} bytes)", ops, p.framing, p.wire.bytes.len());
             ("mutation", w)
+        }
+        12 => {
+            // header fields the library itself interprets, built from their own small alphabets
+            let pieces: &[&str] = &["text/plain", "text/html", ";", " ", "charset=", "charset", "CHARSET=", "\"", "'", "utf-8", "UTF-16", "=", ",", "\u{e9}", "x", "*", "/"];
+            let build = |g: &mut G, n: usize| -> String { (0..g.usize_below(n + 1)).map(|_| *g.pick(pieces)).collect::<String>() };
+            let ct = build(g, 7);
+            let ce: String = (0..g.usize_below(4)).map(|_| *g.pick(&["gzip", "deflate", ",", " ", "identity", "x", "GZIP", "\"", ";q=0"])).collect();
+            let loc: String = (0..g.usize_below(5)).map(|_| *g.pick(&["http://", "https://", "//", "/", "..", "a.test", ":", "80", "99999", "[", "]", "::1", "@", "#", "?", "%", " ", "\u{e9}", "\\"])).collect();
+            let status = *g.pick(&[200u16, 200, 301, 302, 307, 401, 407]);
+            let mut w = format!("HTTP/1.1 {} X\r\n", status).into_bytes();
+            if g.chance(3, 4) {
+                w.extend_from_slice(format!("Content-Type: {}\r\n", ct).as_bytes());
+            }
+            if g.chance(1, 3) {
+                w.extend_from_slice(format!("Content-Encoding: {}\r\n", ce).as_bytes());
+            }
+            if status / 100 == 3 || g.chance(1, 6) {
+                w.extend_from_slice(format!("Location: {}\r\n", loc).as_bytes());
+            }
+            w.extend_from_slice(b"Content-Length: 2\r\n\r\nhi");
+            desc = format!("interpreted-fields {:?}", short(&w));
+            g.probe("hostile-interpreted-header-fields");
+            ("interpreted-fields", w)
         }
         6 => {
             // declared sizes far beyond what arrives
@@ -282,6 +309,8 @@ fn gen(g: &mut G, thorough: bool) -> Plan {
         end,
         max_headers,
         alloc_factor,
+        follow: kind == "interpreted-fields" && g.chance(1, 2),
+        helper: if bound.is_none() && kind != "gzip-bomb" && kind != "declared-size" && g.chance(1, 4) { 1 + g.below(4) as u8 } else { 0 },
         method: *g.pick(&["GET", "GET", "HEAD", "POST"]),
         rereads: g.below(5) as usize,
         read_size: if kind == "gzip-bomb" { *g.pick(&[8192usize, 65536, 4096]) } else { *g.pick(&[8192usize, 1, 100, 65536]) },
@@ -309,7 +338,7 @@ fn caller(p: &Plan) -> Obs {
     let url = if p.via_connect { "https://secure.test/x".to_string() } else { format!("http://{}/x", bodyx::HOST_IP) };
     let mut rb = attohttpc::RequestBuilder::new(attohttpc::Method::from_bytes(p.method.as_bytes()).unwrap(), url)
         .read_timeout(Duration::from_secs(30))
-        .follow_redirects(false);
+        .follow_redirects(p.follow);
     if p.via_connect {
         rb = rb.proxy_settings(attohttpc::ProxySettings::builder().https_proxy(url::Url::parse("http://origin.test:80").unwrap()).build());
     }
@@ -318,6 +347,23 @@ fn caller(p: &Plan) -> Obs {
     }
     match rb.send() {
         Err(e) => o.send = Err(err_kind(&e)),
+        Ok(resp) if p.helper != 0 => {
+            o.send = Ok(resp.status().as_u16());
+            o.reads = 1;
+            let r: Result<usize, String> = match p.helper {
+                1 => resp.text().map(|t| t.len()).map_err(|e| err_kind(&e)),
+                2 => resp.json::<serde_json::Value>().map(|_| 0).map_err(|e| err_kind(&e)),
+                3 => {
+                    let mut t = String::new();
+                    resp.text_reader().read_to_string(&mut t).map_err(|e| io_kind(&e))
+                }
+                _ => resp.bytes().map(|b| b.len()).map_err(|e| err_kind(&e)),
+            };
+            match r {
+                Ok(n) => o.out_len = n,
+                Err(e) => o.first_err = Some(e),
+            }
+        }
         Ok(mut resp) => {
             o.send = Ok(resp.status().as_u16());
             let mut after = 0usize;
